@@ -108,9 +108,11 @@ def h_fields(I, nBS, nL, nT, nV, nC):
     return [res[1], res[0] is not None]
 
 
-def h_mutate(I, fi, kind, lo, hi):
-    """One byte substituted / deleted / inserted at a symbolic offset of a valid frame."""
+def h_mutate(I, fi, kind, lo, hi, follow=False):
+    """One byte substituted / deleted / inserted at a symbolic offset of a valid frame; with
+    `follow` the corrupted frame is directly followed by a valid one in the same buffer."""
     f = FRAMES[fi]
+    nxt = FRAMES[(fi + 1) % len(FRAMES)] if follow else b""
     if kind == "sub":
         off = lo + I.choice("offset", min(hi, len(f)) - lo)
         x = I.fbytes("byte", 1)
@@ -123,17 +125,18 @@ def h_mutate(I, fi, kind, lo, hi):
         off = lo + I.choice("offset", min(hi, len(f) + 1) - lo)
         x = I.fbytes("byte", 1)
         raw = f[:off] + x + f[off:]
+    raw = raw + nxt
     res = _decode(I, raw)
     d, used, out = res
     _oracle(I, raw, res)
-    I.check(d is None or out == f, "single-byte corruption of a valid frame returned as a message")
+    I.check(d is None or out == f or (follow and out == nxt), "single-byte corruption of a valid frame returned as a message")
     # repeated decoding terminates: decode what is left until nothing is consumed
     rest = raw[used:] if used > 0 else raw
     steps = 0
     while used > 0 and len(rest) > 0 and steps < 8:
         res = _decode(I, rest)
         _oracle(I, rest, res)
-        I.check(res[0] is None or res[2] == f, "corrupted frame returned as a message on re-decoding")
+        I.check(res[0] is None or res[2] == f or (follow and res[2] == nxt), "corrupted frame returned as a message on re-decoding")
         used = res[1]
         rest = rest[used:] if used > 0 else rest
         steps += 1
@@ -206,6 +209,14 @@ def cells(tier):
                                 dict(frame=FRAMES[fi].decode("latin-1"), mutation=kind,
                                      offsets=f"every position in [{lo},{min(hi, n)})", byte="all 256 values"),
                                 goals=["skip"], regions=reg, budget_s=1800))
+    for fi in range(len(FRAMES) if not quick else 1):
+        n = len(FRAMES[fi])
+        for kind in ("sub", "del", "ins"):
+            lo = 0 if not quick else max(0, n - 14)
+            out.append(Cell(f"mutate-then-frame/{fi}/{kind}", (lambda I, fi=fi, k=kind, lo=lo: h_mutate(I, fi, k, lo, 10**6, True)),
+                            dict(frame=FRAMES[fi].decode("latin-1"), mutation=kind, followed_by="a valid frame in the same buffer",
+                                 offsets=f"every position in [{lo},{n}]", byte="all 256 values"),
+                            goals=["skip"], regions=reg, budget_s=2400))
     nG = 2 if quick else 4
     for kind, kname in enumerate(("arbitrary-bytes", "marker+bytes", "header+symbolic-bodylength", "truncated-frame")):
         out.append(Cell(f"live/{kname}", (lambda I, k=kind: h_live(I, nG, k)),
